@@ -9,6 +9,8 @@ import KinModel.Lemmas.C11
 import KinModel.Gen.ReadSites
 import KinModel.Gen.WalkSites
 import KinModel.Gen.LoaderState
+import KinModel.Gen.ReaderGuards
+import KinModel.Lemmas.C11Readers
 namespace KinModel.Reads
 
 /-! ### first sentence: switch off -/
@@ -666,5 +668,43 @@ theorem host_location_never_local (l : RLoc) (h : l.host ≠ "") : ∀ p, defaul
 /-- non-vacuity: the scheme-relative location `//h.example/etc/passwd` is unsupported, `/etc/x.json` is the local file -/
 example : defaultRead ⟨"", "h.example", "/etc/passwd"⟩ = .unsupported ∧ defaultRead ⟨"", "", "/etc/x.json"⟩ = .file "/etc/x.json" ∧
     defaultRead ⟨"https", "h.example", "/x"⟩ = .http ⟨"https", "h.example", "/x"⟩ := by decide
+
+open KinModel.Gen in
+theorem reader_guards_recognised : ∀ r ∈ readerGuards, gRecognised r.exp = true := by decide
+
+open KinModel.Gen in
+/-- The conditions of openapi3/loader_uri_reader.go, regenerated as expression trees and EVALUATED on an arbitrary
+location, are the model's: `is_file` is `isFile`, ReadFromHTTP declines exactly when the model's does, ReadFromFile
+declines exactly when `is_file` is false. (A regrouped, weakened or extended condition changes the value on some
+location and breaks this obligation.) -/
+theorem reader_guards_as_modelled (l : RLoc) :
+    tableIsFile l = some (isFile l) ∧
+    tableDeclines "ReadFromHTTP" l = some (readFromHTTP l).isNone ∧
+    tableDeclines "ReadFromFile" l = some (readFromFile l).isNone := by
+  have h1 : guardRows "is_file" "return" =
+      [⟨"is_file", "return", .and (.and (.ne "Path" "") (.eq "Host" "")) (.or (.eq "Scheme" "") (.eq "Scheme" "file")), ""⟩] := by decide
+  have h2 : guardRows "ReadFromHTTP" "decline-if" =
+      [⟨"ReadFromHTTP", "decline-if", .or (.eq "Scheme" "") (.eq "Host" ""), ""⟩] := by decide
+  have h3 : guardRows "ReadFromFile" "decline-if" =
+      [⟨"ReadFromFile", "decline-if", .not (.call "is_file"), ""⟩] := by decide
+  have hf : tableIsFile l = some (isFile l) := by
+    simp [tableIsFile, h1, evalG, fieldOf, isFile]
+  refine ⟨hf, ?_, ?_⟩
+  · simp only [tableDeclines, h2, List.foldl, evalG, fieldOf]
+    simp [readFromHTTP]
+    by_cases a : l.scheme = "" <;> by_cases b : l.host = "" <;> simp [a, b]
+  · simp only [tableDeclines, h3, List.foldl, evalG]
+    simp [hf, readFromFile]
+    cases isFile l <;> simp
+
+open KinModel.Gen in
+/-- What each reader touches once it does not decline: ReadFromHTTP requests `location.String()` (the location itself),
+ReadFromFile reads `location.Path`, and the default reader is the chain [ReadFromHTTP, ReadFromFile] behind the cache —
+the model's `defaultRead`. -/
+theorem reader_media_as_modelled :
+    readerGuards.filterMap (fun r => if r.role = "fetches" ∨ r.role = "reads" ∨ r.role = "compose" then some (r.fn, r.role, r.text) else none) =
+      [("DefaultReadFromURI", "compose", "URIMapCache(ReadFromURIs(ReadFromHTTP(http.DefaultClient), ReadFromFile))"),
+       ("ReadFromHTTP", "fetches", "\"GET\" location.String()"),
+       ("ReadFromFile", "reads", "filepath.FromSlash(location.Path)")] := by decide
 
 end KinModel.Reads
